@@ -24,7 +24,11 @@ RegP(t) == PRegister(t, AllBits, <<AI("Name", 0, "n1"), AI("Object Group", 0, "o
 AttrNames == {"Name", "Object Group", "Application Specific Information", "Sensitive", "Operation Policy Name",
               "Cryptographic Usage Mask", "State", "Cryptographic Algorithm", "Cryptographic Length",
               "Contact Information", "x-custom", "Initial Date", "Unique Identifier", "Object Type",
-              "Certificate Type", "Activation Date", "Digest", "Link"}
+              "Certificate Type", "Activation Date", "Digest", "Link",
+              \* the rest of the names a request can carry: more of the rule table, and names the server has no rule for
+              "Fresh", "Lease Time", "Certificate Length", "Deactivation Date", "Process Start Date", "Last Change Date",
+              "Destroy Date", "Archive Date", "Compromise Date",
+              "Always Sensitive", "Extractable", "Never Extractable", "Original Creation Date"}
 ValOf(n) == CASE n = "Name" -> "n9" [] n = "Object Group" -> "og9"
               [] n = "Application Specific Information" -> <<"ns1", "d1">>
               [] n = "Sensitive" -> TRUE [] n = "Operation Policy Name" -> "public"
@@ -32,6 +36,10 @@ ValOf(n) == CASE n = "Name" -> "n9" [] n = "Object Group" -> "og9"
               [] n = "Cryptographic Algorithm" -> "AES" [] n = "Cryptographic Length" -> 128
               [] n = "Initial Date" -> 5 [] n = "Unique Identifier" -> "1" [] n = "Object Type" -> "SecretData"
               [] n = "Certificate Type" -> "X_509" [] n = "Activation Date" -> 7
+              [] n \in {"Fresh", "Always Sensitive", "Extractable", "Never Extractable"} -> TRUE
+              [] n \in {"Lease Time", "Certificate Length"} -> 60
+              [] n \in {"Deactivation Date", "Process Start Date", "Last Change Date", "Destroy Date", "Archive Date",
+                        "Compromise Date", "Original Creation Date"} -> 7
               [] OTHER -> "zz"
 \* names that can be sent in the KMIP 2.0 forms (need a tag)
 Names20 == AttrNames \ {"x-custom", "Digest", "Link", "Contact Information"}
@@ -79,6 +87,9 @@ RegShape(t, shape) ==
       [] shape = "nolen" -> [b EXCEPT !.obj.len = 0]
       [] shape = "empty" -> [b EXCEPT !.obj.val = "", !.obj.vlen = 0]
       [] shape = "pgp"   -> [b EXCEPT !.obj.sub = IF t = "Certificate" THEN "PGP" ELSE @]
+      \* a split key with a prime field size (a Big Integer): small, or beyond 64 bits
+      [] shape = "prime" -> [b EXCEPT !.obj.sub = IF t = "SplitKey" THEN "PRIME" ELSE @]
+      [] shape = "bigprime" -> [b EXCEPT !.obj.sub = IF t = "SplitKey" THEN "PRIME_BIG" ELSE @]
       [] OTHER -> b
 
 GANames(n) == CASE n = "some" -> <<"Cryptographic Algorithm", "x-custom", "State">>
@@ -159,6 +170,7 @@ Grid(s) ==
     \cup {D("create", "alice", 12, 0, n, 0, "", FALSE) : n \in {"ok", "custom", "badlen", "secret", "contact", "state", "names", "dup"}}
     \cup {D("register", "alice", 12, 0, n, 0, t, FALSE) : t \in Types7 \cup {"Template"}, n \in {"", "alg", "len", "sens", "state", "ctype"}}
     \cup {D("regshape", "alice", 12, 0, n, 0, t, FALSE) : t \in Types7, n \in {"noalg", "nolen", "empty", "pgp"}}
+    \cup {D("regshape", "alice", 12, 0, n, 0, "SplitKey", FALSE) : n \in {"prime", "bigprime"}}
 
 MenuC13(s) == IF LastWasProbe THEN {} ELSE BuildMenu(s) \cup (IF depth >= 1 THEN Grid(s) ELSE {})
 
